@@ -11,12 +11,13 @@ TITLE = 'Instance::parse_input_transaction (selection / --select refusal) and In
 TUS = ['instance', 'value', 'tx', 'interp', 'script', 'dbginterp', 'dbgscript', 'strenc', 'pubkey', 'hash', 'sha256', 'ripemd160', 'sha1', 'uint256', 'base58', 'bech32', 'script_error']
 SHIMS = ['spend']
 NATIVE_TUS = _b.ALL_NATIVE + ['instance']
+PARTS = ['C03end']
 FUNCTIONS = ['Instance::parse_transaction', 'Instance::parse_input_transaction', 'Instance::configure_tx_txin', 'Instance::setup_environment', 'parse_tx', 'TaprootCommitmentEnv ctor (leaf hash)', 'Value::do_hash160/do_sha256', 'GetSerializeSize(witness stack)',
              'InterpreterEnv ctor', 'PrecomputedTransactionData::Init']
 ASSUMPTIONS = ['hash compression functions uninterpreted on symbolic input', 'allocation never fails; diagnostics discarded', 'the per-step execution of the configured scripts is decided by C01/C02/C05, the script switches by C04/C10: this check decides the set-up they start from',
                'tx structure (counts, lengths) concrete per shape; every payload byte, amount, sequence, prevout symbolic']
 OUTSIDE = ['more than 2 inputs / 2 outputs', 'witness items longer than 33 bytes except the 64/65-byte Schnorr signature', 'control blocks with more than 1 path node (C05 covers the fold)']
-BOUNDS = 'selection: 1-2 inputs, prevout hashes symbolic, --select in {-1,0,1,2}; set-up: 9 spend shapes x {hash matches, hash differs (both explored symbolically)}; control block sizes 0,1,2,31,32,33,34,64,65,66,33+32*128,33+32*129 (thorough: every size 0..99 and the sizes around 33+32*128); annex present/absent'
+BOUNDS = 'selection: 1-2 inputs, prevout hashes symbolic, --select in {-1,0,1,2}; set-up: 9 spend shapes x {hash matches, hash differs (both explored symbolically)} x companion input with / without a witness of its own; control block sizes 0,1,2,31,32,33,34,64,65,66,33+32*128,33+32*129 (thorough: every size 0..99 and the sizes around 33+32*128); annex present/absent'
 
 def setup(E):
     stubs.install_all(E)
@@ -48,6 +49,8 @@ def obligations(tier, seed):
     obs = []
     for k in KINDS:
         for second in (0, 1): obs.append(dict(name='setup/%s/in%d' % (k, second), kind='setup', t=k, idx=second))
+        if k in ('legacy-p2pkh', 'legacy-bare', 'p2wpkh', 'p2tr-key', 'p2tr-script-m0', 'witness-program-empty-witness'):
+            for second in (0, 1): obs.append(dict(name='setup/%s/in%d/other-input-has-witness' % (k, second), kind='setup', t=k, idx=second, other_wit=1))
     for cs in (CTRL_SIZES if tier == 'quick' else sorted(set(list(range(0, 100)) + [33 + 32 * 127, 33 + 32 * 128 - 1, 33 + 32 * 128 + 1] + CTRL_SIZES))): obs.append(dict(name='setup/control-size/%d' % cs, kind='setup', t='p2tr-script-ctrl', idx=0, csize=cs))
     for nin in (1, 2):
         for sel in (-1, 0, 1, 2): obs.append(dict(name='select/nin%d/select%d' % (nin, sel), kind='select', nin=nin, sel=sel))
@@ -133,7 +136,7 @@ def build(ob, V=None):
     fund_full, fund_stripped = ser_tx([1, 0, 0, 0], [(bs('fh', 32), [0, 0, 0, 0], [], [0xff] * 4, None)], fund_outs, [0, 0, 0, 0])
     ph = bs('ph', 32)          # prevout hash of the input under test (configure_tx_txin trusts the indices it is given)
     mine = (ph, [1, 0, 0, 0], S, bs('sq', 4), W)
-    other = (bs('oh', 32), [0, 0, 0, 0], [], bs('osq', 4), None)
+    other = (bs('oh', 32), [0, 0, 0, 0], [], bs('osq', 4), [bs('ow', 2)] if ob.get('other_wit') else None)          # the companion input may carry a witness of its own (mixed transaction)
     ins = [mine] if idx == 0 and True else [other, mine]
     if idx == 0: ins = [mine, other]
     spend_full, _ = ser_tx(bs('ver', 4), ins, [(bs('sv', 8), [0x51])], bs('lk', 4))
